@@ -104,13 +104,14 @@ int merge_msa(struct msa** dest, struct msa* src)
         }
 
         for(i = 0; i < src->numseq;i++){
+                /* make room first: the destination may be exactly full (e.g. 512 sequences read from the first file) */
+                if(d->alloc_numseq == d->numseq){
+                        RUN(resize_msa(d));
+                }
                 free_msa_seq(d->sequences[d->numseq]);
                 d->sequences[d->numseq] = src->sequences[i];
                 src->sequences[i] = NULL;
                 d->numseq++;
-                if(d->alloc_numseq == d->numseq){
-                        RUN(resize_msa(d));
-                }
         }
         RUN(detect_alphabet(d));
         RUN(detect_aligned(d));
